@@ -21,9 +21,21 @@ pub fn dispatch(op: &str, req: &Value) -> Result<Value, String> {
     if let Some(k) = op.strip_prefix("c13:") {
         return crate::ops_common::c13(k, req);
     }
+    #[cfg(feature = "events")]
+    if let Some(k) = op.strip_prefix("c20:") {
+        return crate::ops_events::c20(k, req);
+    }
     #[cfg(feature = "stateres")]
     if let Some(k) = op.strip_prefix("c08:") {
         return crate::ops_stateres::c08(k, req);
+    }
+    #[cfg(feature = "stateres")]
+    if let Some(k) = op.strip_prefix("c09:") {
+        return crate::ops_stateres::c08(k, req);
+    }
+    #[cfg(feature = "common")]
+    if let Some(k) = op.strip_prefix("c12:") {
+        return crate::ops_common::c12(k, req);
     }
     #[cfg(feature = "common")]
     if let Some(k) = op.strip_prefix("c11:") {
